@@ -1173,11 +1173,11 @@ fn main() {
     }
     let n = args.cases as u64;
     report.floor("out_accept", n / 10);
-    report.floor("out_reject_HeaderError", n / 50);
-    report.floor("out_reject_MessageError", n / 50);
-    report.floor("out_reject_TooManySignatures", n / 100);
-    report.floor("out_reject_TooManyReferences", n / 200);
-    report.floor("out_reject_PrepareTooManyValues", n / 200);
+    report.floor("out_reject_HeaderError", n / 100);
+    report.floor("out_reject_MessageError", n / 100);
+    report.floor("out_reject_TooManySignatures", n / 400);
+    report.floor("out_reject_TooManyReferences", n / 1000);
+    report.floor("out_reject_PrepareTooManyValues", n / 600);
     cw.write(&args.out, args.shards).unwrap();
     report.write(&args.out).unwrap();
 }
